@@ -290,7 +290,7 @@ func c05Pack(r *core.Run) {
 		}
 	}
 	core.InstrsOf(dec, func(in ssa.Instruction) {
-		if b, ok := in.(*ssa.BinOp); ok && b.Op == token.EQL {
+		if b, ok := in.(*ssa.BinOp); ok && (b.Op == token.EQL || b.Op == token.NEQ) {
 			if u, ok := b.X.(*ssa.UnOp); ok {
 				if ia, ok := u.X.(*ssa.IndexAddr); ok {
 					if k, ok := core.ConstInt(ia.Index); ok && k == 0 {
